@@ -63,6 +63,19 @@ def replay(prop, path):
 
 
 def run(prop, tier):
+    import tempfile
+
+    # bytecode cache for the processes the checks start themselves (fresh-process references, the daemon): the
+    # 34k-line generated tables otherwise cost seconds per start.  Outside /repo, removed when the run ends.
+    pyc = tempfile.mkdtemp(prefix="vf-pyc.")
+    os.environ["VERIF_PYCACHE"] = pyc
+    try:
+        return _run(prop, tier)
+    finally:
+        shutil.rmtree(pyc, ignore_errors=True)
+
+
+def _run(prop, tier):
     from . import pool
 
     t0 = time.time()
